@@ -79,6 +79,20 @@ def progRunX (cfg : Cfg α) (p : ProgX α) (path : List Nat) : RunFn α := fun d
     | _ => throw Err.badPath
   else pure w
 
+/-- the stack of a fixed-income program: `[RunPeriod, WeighSpecified, SetNotional(series), Rebalance]`; `notional[d]` is the entry
+    of the notional series on row `d` (`none`: the date is not in the series' index — SetNotional returns False, the stack stops) -/
+structure ProgFI (α : Type) where
+  gate : List Bool
+  ws : List (Nat × α)
+  notional : List (Option α)
+
+def progRunFI (cfg : Cfg α) (p : ProgFI α) (path : List Nat) : RunFn α := fun d w =>
+  if p.gate.getD d false then
+    match p.notional.getD d none with
+    | none => pure w
+    | some nv => algoRebalance cfg w path p.ws none (some nv)
+  else pure w
+
 /-! ### trees of arbitrary per-strategy run functions, and nested backtests over them -/
 
 inductive GTree (α : Type) where
